@@ -44,6 +44,24 @@ theorem trimRev_min (minN : Nat) (xs : List (Option α)) (h : minN ≤ xs.length
       · apply ih; omega
       · simpa using h
 
+/-- never below `min(minN, length)` (so a list no longer than `minN` is left alone) -/
+theorem trimRev_min' (minN : Nat) (xs : List (Option α)) :
+    min minN xs.length ≤ (trimRev minN xs).length := by
+  induction xs with
+  | nil => simp [trimRev]
+  | cons x rest ih =>
+    cases x with
+    | some v => simp only [trimRev]; exact Nat.min_le_right _ _
+    | none =>
+      simp only [trimRev]
+      split
+      · rename_i hc
+        have : min minN rest.length = minN := Nat.min_eq_left (by omega)
+        have h2 : min minN (rest.length + 1) = minN := Nat.min_eq_left (by omega)
+        simp only [List.length_cons, h2]
+        omega
+      · exact Nat.min_le_right _ _
+
 /-- above the minimum, the trimmed (reversed) list starts with a present value -/
 theorem trimRev_head (minN : Nat) (xs : List (Option α)) (h : minN < (trimRev minN xs).length) :
     ∃ v rest, trimRev minN xs = some v :: rest := by
@@ -73,11 +91,53 @@ theorem trim_min (minN : Nat) (xs : List (Option α)) (h : minN ≤ xs.length) :
     minN ≤ (trim minN xs).length := by
   simpa [trim] using trimRev_min minN xs.reverse (by simpa using h)
 
+theorem trim_min' (minN : Nat) (xs : List (Option α)) :
+    min minN xs.length ≤ (trim minN xs).length := by
+  simpa [trim] using trimRev_min' minN xs.reverse
+
 theorem trim_last (minN : Nat) (xs : List (Option α)) (h : minN < (trim minN xs).length) :
     ∃ v, (trim minN xs).getLast? = some (some v) := by
   have h' : minN < (trimRev minN xs.reverse).length := by simpa [trim] using h
   obtain ⟨v, rest, hv⟩ := trimRev_head minN xs.reverse h'
   exact ⟨v, by simp [trim, hv]⟩
+
+/-- The four facts pin the result down: any list with them is the trimmed list. -/
+theorem trim_unique (minN : Nat) (xs ys : List (Option α))
+    (h1 : ys <+: xs) (h2 : ∃ k, xs = ys ++ List.replicate k none)
+    (h3 : min minN xs.length ≤ ys.length)
+    (h4 : minN < ys.length → ∃ v, ys.getLast? = some (some v)) :
+    ys = trim minN xs := by
+  -- both are prefixes of xs: compare lengths
+  have t1 := trim_prefix minN xs
+  have t3 := trim_min' minN xs
+  have t4 := trim_last minN xs
+  obtain ⟨kt, hkt⟩ := trim_dropped minN xs
+  obtain ⟨k, hk⟩ := h2
+  have key : ∀ (a b : List (Option α)) (ka : Nat), a <+: xs → b <+: xs → xs = a ++ List.replicate ka none →
+      min minN xs.length ≤ a.length → (minN < b.length → ∃ v, b.getLast? = some (some v)) →
+      ¬ a.length < b.length := by
+    intro a b ka ha hb hxa hmin hlast hlt
+    -- b = a ++ (some nones), nonempty
+    obtain ⟨tb, htb⟩ := hb
+    have hble : b.length ≤ xs.length := by rw [← htb]; simp
+    have hminN : minN < b.length := by
+      have : min minN xs.length ≤ a.length := hmin
+      rcases Nat.le_total minN xs.length with h | h
+      · rw [Nat.min_eq_left h] at this; omega
+      · rw [Nat.min_eq_right h] at this; omega
+    obtain ⟨v, hv⟩ := hlast hminN
+    -- the last element of b sits at index b.length-1 ≥ a.length of xs, which is none
+    have hbne : b ≠ [] := by intro h; simp [h] at hlt
+    have hidx : xs[b.length - 1]? = some (some v) := by
+      rw [← htb, List.getElem?_append_left (by omega)]
+      rw [List.getLast?_eq_getElem?] at hv
+      exact hv
+    rw [hxa, List.getElem?_append_right (by omega), List.getElem?_replicate] at hidx
+    split at hidx <;> simp at hidx
+  have hle1 : ¬ ys.length < (trim minN xs).length := key ys (trim minN xs) k h1 t1 hk h3 t4
+  have hle2 : ¬ (trim minN xs).length < ys.length := key (trim minN xs) ys kt t1 h1 hkt t3 h4
+  have hlen : ys.length = (trim minN xs).length := by omega
+  exact List.prefix_of_prefix_length_le h1 t1 (by omega) |>.eq_of_length hlen
 
 /-- plain `Node`: `min = len` ⇒ nothing is trimmed -/
 theorem trim_len (xs : List (Option α)) : trim xs.length xs = xs :=
